@@ -10,11 +10,18 @@
 //       P - dW/dt = 0
 //   gradient clause (conservative always, dissipative at u = 0): for every mobility i the generalized force
 //       Q_i = sum_b J_b,i^T F_b + f_i (J from velocity kinematics at u = e_i) equals -d/dt PE along qdot = N e_i.
+// Sections "contact", "exponential-spring", "cable" (namespace cx below) apply the same clauses to the contact elements
+// and the cable spring of the property's quantifier: HuntCrossleyForce, ElasticFoundationForce, the generators of the
+// CompliantContactSubsystem (Hertz circular / elliptical, elastic foundation, brick - half-space), the normal direction of
+// ExponentialSpringForce and CableSpring over a CablePath, on purpose-built one- and two-body fixtures.
 #include "Simbody.h"
 #include "verif.h"
 #include "models.h"
 #include "forcemodels.h"
 #include "refkit.h"
+#include "CablePath_Impl.h"
+
+#include <memory>
 
 using namespace SimTK;
 using ref::LD;
@@ -164,12 +171,518 @@ static void oneCase(verif::Run& run, const Unit& u, int stateKind, int valueSet,
     run.outcome(verif::hashMix(verif::hashPod((float)P), verif::hashPod((float)peHere)));
 }
 
+// =====================================================================================================================
+// Sections "contact", "exponential-spring", "cable": the contact elements and the cable spring of the property's
+// quantifier.  Same oracles as above, on purpose-built two-body fixtures (the element alone in the system):
+//   P = sum_b F_b . V_b  (F from Force::calcForceContribution, or the system's rigid-body forces for the
+//   CompliantContactSubsystem, which is a force subsystem of its own); dPE/dt by 4th-order central differences of the
+//   REPORTED potential energy (Force::calcPotentialEnergyContribution / MultibodySystem::calcPotentialEnergy, state
+//   realized to Stage::Dynamics as documented) along q + t*qdot; Richardson pair must agree or the case is skipped.
+namespace cx {
+
+struct CoutSilencer { std::streambuf* old; CoutSilencer() : old(std::cout.rdbuf(nullptr)) {} ~CoutSilencer() { std::cout.rdbuf(old); std::cout.clear(); } };
+
+static const double TOLC = 1e-7;          // contact / exponential spring / cable over via points (calibration: notes/C12.md)
+static const double TOL_SURFACE = 1e-4;   // cable over a surface obstacle: the path's geodesics are integrated numerically (CablePath: 1e-6)
+
+struct Fx {
+    MultibodySystem sys; SimbodyMatterSubsystem matter; GeneralForceSubsystem forces;
+    std::unique_ptr<GeneralContactSubsystem> gcs; std::unique_ptr<ContactTrackerSubsystem> tracker; std::unique_ptr<CompliantContactSubsystem> ccs;
+    std::unique_ptr<CableTrackerSubsystem> cables; std::unique_ptr<CablePath> path;
+    MobilizedBody::Free A, B; bool haveA = false, chain = false;
+    Transform X_AF;                       // inboard frame of B on A (chain)
+    Force element; bool haveElement = false;
+    Fx() : matter(sys), forces(sys) {}
+    static Body::Rigid body() { return Body::Rigid(MassProperties(1.3, Vec3(0.1, -0.15, 0.2), Inertia(0.9, 1.2, 1.4, 0.1, -0.07, 0.05).shiftFromMassCenter(Vec3(0.1, -0.15, 0.2), 1.3))); }
+    // carrier 0: only B (partner on Ground); 1: A and B both Free on Ground; 2: B is a Free child of A
+    void addBodies(int carrier) {
+        if (carrier >= 1) { A = MobilizedBody::Free(matter.Ground(), Transform(), body(), Transform()); haveA = true; }
+        if (carrier == 2) { chain = true; X_AF = Transform(Rotation(BodyRotationSequence, 0.3, XAxis, 0.5, YAxis, -0.2, ZAxis), Vec3(0.2, -0.1, 0.3)); B = MobilizedBody::Free(A, X_AF, body(), Transform()); }
+        else B = MobilizedBody::Free(matter.Ground(), Transform(), body(), Transform());
+    }
+    MobilizedBody first() { return haveA ? (MobilizedBody)A : (MobilizedBody)matter.updGround(); }
+    // poses and velocities are given in Ground; A must be set (and the State realized to Position for the velocities) first
+    void poseB(State& s, const Transform& X_GB) {
+        if (!chain) { B.setQToFitTransform(s, X_GB); return; }
+        sys.realize(s, Stage::Position);
+        B.setQToFitTransform(s, ~(A.getBodyTransform(s) * X_AF) * X_GB);
+    }
+    void velB(State& s, const SpatialVec& V_GB) {       // state realized to Position
+        if (!chain) { B.setUToFitVelocity(s, V_GB); return; }
+        sys.realize(s, Stage::Velocity);
+        const Transform X_GF = A.getBodyTransform(s) * X_AF; const SpatialVec VA = A.getBodyVelocity(s);
+        const Vec3 oB = B.getBodyOriginLocation(s), oA = A.getBodyOriginLocation(s);
+        const Vec3 vF = VA[1] + VA[0] % (X_GF.p() - oA);
+        B.setUToFitVelocity(s, SpatialVec(~X_GF.R() * (V_GB[0] - VA[0]), ~X_GF.R() * (V_GB[1] - vF - VA[0] % (oB - X_GF.p()))));
+    }
+    LD pe(const State& st) const { return haveElement ? (LD)element.calcPotentialEnergyContribution(st) : (LD)sys.calcPotentialEnergy(st); }
+    void applied(const State& s, Vector_<SpatialVec>& F, Vector& f) const {
+        if (haveElement) { Vector_<Vec3> pF; element.calcForceContribution(s, F, pF, f); }
+        else { F = sys.getRigidBodyForces(s, Stage::Dynamics); f = sys.getMobilityForces(s, Stage::Dynamics); }
+    }
+};
+
+struct Spec {
+    std::string en, suffix, regime;       // element(geometry) ; motion class / regime (last component of the violation key) ; regime used for the counters
+    bool dissipative = false, gradient = false;
+    LD Fnom = 0, H = 2e-5L; double tol = TOLC, fdAgree = TOLC / 1000;  // a kink inside the stencil leaves an error of up to ~3x the pair's disagreement: kept 300x below the bound
+    std::function<bool(const State&)> valid;            // is a stencil point usable (iterative solvers)? null = always
+    bool accessorApplies = false; std::function<LD(const State&)> accessor;   // documented dissipated-power accessor
+};
+
+struct PathFD { LD d = 0, disagree = 0, absMax = 0; bool bad = false; };
+static PathFD pathDerivative(const Fx& fx, const Spec& sp, State& st, const Vector& q0, const Vector& qdot) {
+    PathFD R;
+    auto phi = [&](LD t) {
+        st.updQ() = q0 + (Real)t * qdot;
+        fx.sys.realize(st, Stage::Dynamics);
+        if (sp.valid && !sp.valid(st)) R.bad = true;
+        const LD pe = fx.pe(st);
+        R.absMax = std::max(R.absMax, fabsl(pe));
+        return std::vector<LD>{pe};
+    };
+    LD dis = 0; auto e = ref::fd4(phi, 0, sp.H, &dis);
+    R.d = e[0]; R.disagree = dis; if (!std::isfinite((double)R.d) || !std::isfinite((double)dis)) R.bad = true;
+    return R;
+}
+
+// s: realized to Stage::Dynamics.  Returns the power balance D = P + dPE/dt (NaN if not evaluated).
+static void judge(verif::Run& run, Fx& fx, State& s, const Spec& sp, const std::string& desc) {
+    auto where = [&] { return desc; };
+    const SimbodyMatterSubsystem& matter = fx.matter;
+    const int nu = s.getNU();
+    Vector_<SpatialVec> F; Vector f; fx.applied(s, F, f);
+    auto powerOf = [&](const State& vs, LD& P, LD& S) {
+        P = 0; S = 0;
+        for (MobilizedBodyIndex b(0); b < matter.getNumBodies(); ++b) {
+            const SpatialVec& V = matter.getMobilizedBody(b).getBodyVelocity(vs);
+            for (int k = 0; k < 2; ++k) for (int i = 0; i < 3; ++i) { const LD t = (LD)F[b][k][i] * (LD)V[k][i]; P += t; S += fabsl(t); }
+        }
+        for (int i = 0; i < nu; ++i) { const LD t = (LD)f[i] * (LD)vs.getU()[i]; P += t; S += fabsl(t); }
+    };
+    auto speedOf = [&](const State& vs) { LD v = 0; for (MobilizedBodyIndex b(0); b < matter.getNumBodies(); ++b) { const SpatialVec& V = matter.getMobilizedBody(b).getBodyVelocity(vs); v = std::max(v, (LD)V[0].norm() + (LD)V[1].norm()); } return v; };
+    LD P = 0, S = 0; powerOf(s, P, S);
+    const LD Vmax = speedOf(s);
+    const LD peHere = fx.pe(s);
+    run.expect(std::isfinite((double)peHere) && peHere >= 0, "reported-PE-negative-or-not-finite/" + sp.en, [&] { return "reported potential energy " + verif::fmtd((double)peHere) + " at " + desc; });
+    if (fx.haveElement) {
+        const LD sysPE = fx.sys.calcPotentialEnergy(s);
+        run.expect(sysPE == peHere, "system-PE-vs-element-contribution/" + sp.en, [&] { return "MultibodySystem::calcPotentialEnergy " + verif::fmtd((double)sysPE) + " != the only element's contribution " + verif::fmtd((double)peHere) + " at " + desc; });
+    }
+    bool engaged = false;
+    for (int b = 0; b < F.size(); ++b) if (F[b][0].norm() != 0 || F[b][1].norm() != 0) engaged = true;
+    run.count(std::string(engaged ? "force-applied/" : "no-force/") + sp.en);
+
+    State st = s;
+    const Vector q0 = s.getQ(), qdot = s.getQDot();
+    bool nontrivial = false;
+    // ---- power clause
+    {
+        PathFD d = pathDerivative(fx, sp, st, q0, qdot);
+        const LD N = S + fabsl(d.d) + d.absMax + sp.Fnom * Vmax;
+        if (d.bad) run.count("skipped:solver-not-converged-inside-the-stencil(power)/" + sp.en);
+        else if (!(N > 0)) run.count("trivial:no-power-no-energy/" + sp.en);
+        else if (d.disagree > (LD)sp.fdAgree * N) run.count("skipped:richardson-pair-disagrees(power)/" + sp.en);
+        else {
+            const LD D = P + d.d;
+            if (S > 0 || d.d != 0) nontrivial = true;
+            if (sp.dissipative) {
+                run.residual("dissipative-adds-energy/" + sp.en + "/" + sp.suffix, (double)(D / N), sp.tol, where);
+                if (D < -(LD)sp.tol * N) run.count("dissipative-cases-removing-energy/" + sp.en + "/" + (sp.regime.empty() ? sp.suffix : sp.regime));
+            } else run.residual("power-plus-dPEdt/" + sp.en + "/" + sp.suffix, (double)(fabsl(D) / N), sp.tol, where);
+            if (sp.accessor) {
+                if (sp.accessorApplies) {
+                    const LD pd = sp.accessor(s);
+                    run.residual("dissipation-accessor-vs-power-balance/" + sp.en + "/" + sp.suffix, (double)(fabsl(-D - pd) / N), sp.tol, where);
+                    run.expect(pd >= 0, "negative-power-dissipation-reported/" + sp.en, [&] { return "reported power dissipation " + verif::fmtd((double)pd) + " < 0 at " + desc; });
+                } else run.count("unspecified:dissipation-accessor-while-clamped(documented-exception)/" + sp.en);
+            }
+            if (run.verbose) printf("%s\n  %s P=%.15Lg dPE/dt=%.15Lg sum=%.3Lg norm=%.6Lg richardson-disagreement=%.3Lg PE=%.15Lg Vmax=%.4Lg\n", desc.c_str(), sp.dissipative ? "dissipative" : "conservative", P, d.d, D, N, d.disagree, peHere, Vmax);
+        }
+    }
+    // ---- gradient clause
+    if (sp.gradient) {
+        State su = s;
+        for (int i = 0; i < nu; ++i) {
+            su.updU() = 0; su.updU()[i] = 1;
+            fx.sys.realize(su, Stage::Velocity);
+            LD Q = 0, SQ = 0; powerOf(su, Q, SQ);
+            const Vector qdi = su.getQDot();
+            PathFD d = pathDerivative(fx, sp, st, q0, qdi);
+            const LD Vi = speedOf(su);
+            const LD N = SQ + fabsl(d.d) + d.absMax + sp.Fnom * Vi;
+            if (d.bad) { run.count("skipped:solver-not-converged-inside-the-stencil(gradient)/" + sp.en); continue; }
+            if (!(N > 0)) continue;
+            if (d.disagree > (LD)sp.fdAgree * N) { run.count("skipped:richardson-pair-disagrees(gradient)/" + sp.en); continue; }
+            if (SQ > 0 || d.d != 0) nontrivial = true;
+            run.residual("genforce-vs-minus-PE-gradient/" + sp.en + (i % 6 < 3 ? "/rotational-mobility" : "/translational-mobility"), (double)(fabsl(Q + d.d) / N), sp.tol, [&] { return desc + " mobility=" + std::to_string(i); });
+            if (run.verbose) printf("  mobility %d: Q=%.15Lg  dPE/dt along N e_i = %.15Lg  sum=%.3Lg norm=%.6Lg\n", i, Q, d.d, Q + d.d, N);
+        }
+    } else run.count("gradient-clause-not-applicable(dissipation-active)/" + sp.en);
+    run.evaluation(verif::hashStr(desc), nontrivial);
+    run.count(std::string("class:") + (sp.dissipative ? "dissipative" : "conservative") + "(contact-cable)");
+    if (nontrivial) run.count("nontrivial/" + sp.en);
+    run.outcome(verif::hashMix(verif::hashPod((float)P), verif::hashPod((float)peHere)));
+}
+
+// ---------------------------------------------------------------- value sets (VERIF_SEED selects one; thorough runs all)
+struct VS { Real Rb, Ra; Real ang[9]; Vec3 pA; };
+static const VS kVS[3] = {{0.5, 0.7, {0.2, -0.3, -1.3, 0.3, -0.4, 0.2, -0.5, 0.25, 0.6}, Vec3(0.3, 1.5, -0.2)},
+                          {0.3, 0.45, {-0.6, 0.45, 0.8, -0.2, 0.7, -0.35, 0.4, -0.55, 0.15}, Vec3(0.39, 1.95, -0.26)},
+                          {0.8, 1.1, {1.1, 0.2, -0.4, 0.5, 0.1, 0.9, -0.3, -0.7, 0.35}, Vec3(0.48, 2.4, -0.32)}};
+static Rotation rot3(const Real* a) { return Rotation(BodyRotationSequence, a[0], XAxis, a[1], YAxis, a[2], ZAxis); }
+
+// ---------------------------------------------------------------- section "contact"
+enum Shape { S_HS, S_SPH, S_MESHSPH, S_ELL, S_BRICK, S_MESHBRICK };
+enum Family { F_HC, F_EF, F_CCS };
+struct KindInfo { const char* name; int family, mainShape, partnerShape, efParams; };   // efParams (ElasticFoundationForce): 0 main mesh only, 1 both meshes, 2 partner mesh only
+static const KindInfo kKinds[] = {
+    {"HuntCrossleyForce(sphere-halfspace)", F_HC, S_SPH, S_HS, 0},
+    {"HuntCrossleyForce(sphere-sphere)", F_HC, S_SPH, S_SPH, 0},
+    {"ElasticFoundationForce(mesh-halfspace)", F_EF, S_MESHSPH, S_HS, 0},
+    {"ElasticFoundationForce(mesh-sphere)", F_EF, S_MESHSPH, S_SPH, 0},
+    {"ElasticFoundationForce(mesh-mesh,both-parameterised)", F_EF, S_MESHSPH, S_MESHBRICK, 1},
+    {"ElasticFoundationForce(mesh-mesh,only-sphere-mesh-parameterised)", F_EF, S_MESHSPH, S_MESHBRICK, 0},
+    {"ElasticFoundationForce(mesh-mesh,only-brick-mesh-parameterised)", F_EF, S_MESHSPH, S_MESHBRICK, 2},
+    {"CompliantContact-HertzCircular(sphere-halfspace)", F_CCS, S_SPH, S_HS, 0},
+    {"CompliantContact-HertzCircular(sphere-sphere)", F_CCS, S_SPH, S_SPH, 0},
+    {"CompliantContact-HertzElliptical(ellipsoid-halfspace)", F_CCS, S_ELL, S_HS, 0},
+    {"CompliantContact-ElasticFoundation(mesh-halfspace)", F_CCS, S_MESHSPH, S_HS, 0},
+    {"CompliantContact-ElasticFoundation(mesh-sphere)", F_CCS, S_MESHSPH, S_SPH, 0},
+    {"CompliantContact-ElasticFoundation(mesh-mesh)", F_CCS, S_MESHSPH, S_MESHBRICK, 0},
+    {"CompliantContact-BrickHalfSpace(brick-halfspace)", F_CCS, S_BRICK, S_HS, 0}};
+static const int NKIND = sizeof(kKinds) / sizeof(kKinds[0]);
+
+struct Mat { Real c[2], us[2], ud[2], uv[2]; const char* cls; bool damping, friction, clamping; };
+static const Mat kMat[5] = {{{0, 0}, {0, 0}, {0, 0}, {0, 0}, "conservative", false, false, false},
+                            {{0.4, 0.2}, {0, 0}, {0, 0}, {0, 0}, "damping", true, false, false},
+                            {{3.0, 3.0}, {0, 0}, {0, 0}, {0, 0}, "strong-damping(clamps-when-separating)", true, false, true},
+                            {{0, 0}, {0.8, 0.9}, {0.5, 0.6}, {0.3, 0.2}, "friction", false, true, false},
+                            {{0.4, 0.2}, {0.8, 0.9}, {0.5, 0.6}, {0.3, 0.2}, "damping+friction", true, true, false}};
+static const char* depthName(int d) { static const char* n[] = {"separated", "touching", "shallow", "deep"}; return n[d]; }
+static const char* velName(int v) { static const char* n[] = {"rest", "approaching", "separating", "sliding", "spinning", "generic"}; return n[v]; }
+static const char* carrierName(int c) { static const char* n[] = {"partner-on-Ground", "both-on-moving-bodies", "both-on-moving-bodies(chain)"}; return n[c]; }
+
+struct CCase { int kind, carrier, order, mat, depth, vel, vs; };
+static std::string str(const CCase& c) {
+    return std::string(kKinds[c.kind].name) + " " + carrierName(c.carrier) + " order=" + std::to_string(c.order) + " mat=" + kMat[c.mat].cls + " depth=" + depthName(c.depth) + " vel=" + velName(c.vel) + " vs=" + std::to_string(c.vs);
+}
+
+static PolygonalMesh meshOf(int shape, Real Rb) {
+    if (shape == S_MESHSPH) return PolygonalMesh::createSphereMesh(Rb, 2);
+    return PolygonalMesh::createBrickMesh(Vec3(1.6, 0.4, 1.4) * Rb, 4);
+}
+static ContactGeometry geometryOf(int shape, const VS& V, bool isMain) {
+    switch (shape) {
+        case S_HS: return ContactGeometry::HalfSpace();
+        case S_SPH: return ContactGeometry::Sphere(isMain ? V.Rb : V.Ra);
+        case S_ELL: return ContactGeometry::Ellipsoid(Vec3(1.2, 0.8, 1.9) * (V.Rb / 2));
+        case S_BRICK: return ContactGeometry::Brick(Vec3(0.3, 0.2, 0.1) * (V.Rb / 0.5));
+        default: return ContactGeometry::TriangleMesh(meshOf(shape, V.Rb));
+    }
+}
+
+static void contactCase(verif::Run& run, const CCase& c, const std::string& desc) {
+    const KindInfo& K = kKinds[c.kind]; const VS& V = kVS[c.vs]; const Mat& M = kMat[c.mat];
+    const Real Rb = V.Rb;
+    // ---- relative placement of the main shape in the partner's frame at the requested penetration
+    const bool isMesh = K.mainShape == S_MESHSPH, isPoint = !isMesh;
+    static const Real depthPoint[4] = {-0.3, 0, 0.02, 0.24}, depthMesh[4] = {-0.2, 0, 0.1, 0.25}, depthBrick[4] = {-0.2, 0, 0.008, 0.12};
+    const Real* dt = K.mainShape == S_BRICK ? depthBrick : (isPoint ? depthPoint : depthMesh);
+    const Real depth = dt[c.depth] * Rb, depthNominal = dt[2] * Rb;
+    Vec3 n_p, foot;               // outward normal of the partner at the contact and a point of its surface, partner frame
+    if (K.partnerShape == S_HS) { n_p = Vec3(-1, 0, 0); foot = Vec3(0, 0.3, -0.2); }
+    else if (K.partnerShape == S_SPH) { n_p = Vec3(UnitVec3(0.48, 0.6, -0.64)); foot = V.Ra * n_p; }
+    else { n_p = Vec3(0, 1, 0); foot = Vec3(0.13 * Rb, 0.4 * Rb, -0.09 * Rb); }
+    Rotation R_pm = rot3(V.ang + 6);
+    if (K.mainShape == S_BRICK) R_pm = Rotation(UnitVec3(n_p), ZAxis, Vec3(0.2, 0.9, 0.4), XAxis) * Rotation(BodyRotationSequence, 0.05, XAxis, -0.03, YAxis, 0.4, ZAxis);
+    const Vec3 dm = ~R_pm * (-n_p);      // direction towards the partner, main frame
+    Real hsup = Rb; PolygonalMesh mainMesh;
+    if (K.mainShape == S_MESHSPH) { mainMesh = meshOf(S_MESHSPH, Rb); hsup = -Infinity; for (int i = 0; i < mainMesh.getNumVertices(); ++i) hsup = std::max(hsup, dot(mainMesh.getVertexPosition(i), dm)); }
+    else if (K.mainShape == S_ELL) { const Vec3 r = Vec3(1.2, 0.8, 1.9) * (Rb / 2); hsup = std::sqrt(square(r[0] * dm[0]) + square(r[1] * dm[1]) + square(r[2] * dm[2])); }
+    else if (K.mainShape == S_BRICK) { const Vec3 hl = Vec3(0.3, 0.2, 0.1) * (Rb / 0.5); hsup = hl[0] * std::abs(dm[0]) + hl[1] * std::abs(dm[1]) + hl[2] * std::abs(dm[2]); }
+    const Transform X_pm(R_pm, foot + n_p * (hsup - depth));
+    const Vec3 pc_p = X_pm.p() - n_p * (hsup - depth / 2);      // middle of the overlap, partner frame
+
+    // ---- system
+    Fx fx; fx.addBodies(c.carrier);
+    const bool gcsFamily = K.family != F_CCS;
+    const bool swapRoles = gcsFamily ? (c.order & 2) != 0 : (c.order & 1) != 0;      // main shape on the first body, partner on B
+    const bool reverseRegistration = gcsFamily && (c.order & 1);                       // GeneralContactSubsystem: surface on B registered first
+    const int shape0 = swapRoles ? K.mainShape : K.partnerShape, shape1 = swapRoles ? K.partnerShape : K.mainShape;
+    const Transform X_P_S0(rot3(V.ang), Vec3(0.1, -0.2, 0.05)), X_B_S1(Rotation(BodyRotationSequence, 0.35, XAxis, -0.2, YAxis, 0.5, ZAxis), Vec3(0, 0.05, 0.1));
+    const ContactGeometry g0 = geometryOf(shape0, V, swapRoles), g1 = geometryOf(shape1, V, !swapRoles);
+    const int mainSlot = swapRoles ? 0 : 1;      // which of the two surfaces (0: first body, 1: B) carries the main shape
+    const Real Epartner = 1e5, Emain = 3e5, kMeshMain = 1e6, kMeshPartner = 2e6, thickness = 0.02, vtrans = 0.05;
+    LD Fnom = 0;
+    {   // nominal elastic force at the shallow depth (documented laws; only a floor of the normalisation)
+        const Real a = std::pow(Epartner, 2. / 3.), b = std::pow(Emain, 2. / 3.), s1 = b / (a + b), Estar = std::pow(s1 * a, 1.5);
+        Real Reff = Rb; if (K.partnerShape == S_SPH) Reff = Rb * V.Ra / (Rb + V.Ra);
+        if (K.mainShape == S_SPH || K.mainShape == S_ELL) Fnom = (4. / 3.) * std::sqrt(Reff) * Estar * std::pow(depthNominal, 1.5);
+        else if (K.mainShape == S_BRICK) Fnom = Epartner * Emain / (Epartner + Emain) * depthNominal;
+        else if (K.family == F_EF) Fnom = kMeshMain * (0.3 * Rb * Rb) * depthNominal;
+        else Fnom = (Epartner / thickness) * (Emain / thickness) / (Epartner / thickness + Emain / thickness) * (0.3 * Rb * Rb) * depthNominal;
+    }
+    if (gcsFamily) {
+        fx.gcs.reset(new GeneralContactSubsystem(fx.sys));
+        ContactSetIndex set = fx.gcs->createContactSet();
+        int idx[2];
+        if (!reverseRegistration) { fx.gcs->addBody(set, fx.first(), g0, X_P_S0); idx[0] = 0; fx.gcs->addBody(set, fx.B, g1, X_B_S1); idx[1] = 1; }
+        else { fx.gcs->addBody(set, fx.B, g1, X_B_S1); idx[1] = 0; fx.gcs->addBody(set, fx.first(), g0, X_P_S0); idx[0] = 1; }
+        if (K.family == F_HC) {
+            HuntCrossleyForce hc(fx.forces, *fx.gcs, set);
+            for (int k = 0; k < 2; ++k) hc.setBodyParameters(ContactSurfaceIndex(idx[k]), k == mainSlot ? Emain : Epartner, M.c[k], M.us[k], M.ud[k], M.uv[k]);
+            hc.setTransitionVelocity(vtrans);
+            fx.element = hc;
+        } else {
+            ElasticFoundationForce ef(fx.forces, *fx.gcs, set);
+            for (int k = 0; k < 2; ++k) {
+                const bool isMainSurface = k == mainSlot;
+                const bool parameterised = isMainSurface ? (K.efParams == 0 || K.efParams == 1) : (K.partnerShape == S_MESHBRICK && (K.efParams == 1 || K.efParams == 2));
+                if (parameterised) ef.setBodyParameters(ContactSurfaceIndex(idx[k]), isMainSurface ? kMeshMain : kMeshPartner, M.c[k], M.us[k], M.ud[k], M.uv[k]);
+            }
+            ef.setTransitionVelocity(vtrans);
+            fx.element = ef;
+        }
+        fx.haveElement = true;
+    } else {
+        fx.tracker.reset(new ContactTrackerSubsystem(fx.sys));
+        fx.ccs.reset(new CompliantContactSubsystem(fx.sys, *fx.tracker));
+        fx.ccs->setTransitionVelocity(vtrans);
+        const ContactMaterial m0(mainSlot == 0 ? Emain : Epartner, M.c[0], M.us[0], M.ud[0], M.uv[0]), m1(mainSlot == 1 ? Emain : Epartner, M.c[1], M.us[1], M.ud[1], M.uv[1]);
+        auto surf = [&](const ContactGeometry& g, const ContactMaterial& m, int shape) { return (shape == S_MESHSPH || shape == S_MESHBRICK) ? ContactSurface(g, m, thickness) : ContactSurface(g, m); };
+        fx.first().updBody().addContactSurface(X_P_S0, surf(g0, m0, shape0));
+        fx.B.updBody().addContactSurface(X_B_S1, surf(g1, m1, shape1));
+    }
+    CoutSilencer silence;
+    fx.sys.realizeTopology();
+    State s = fx.sys.getDefaultState();
+    // ---- poses
+    const Transform X_GP = fx.haveA ? Transform(rot3(V.ang + 3), V.pA) : Transform();
+    if (fx.haveA) fx.A.setQToFitTransform(s, X_GP);
+    const Transform X_GS0 = X_GP * X_P_S0;
+    const Transform X_S0S1 = swapRoles ? ~X_pm : X_pm;
+    const Transform X_GS1 = X_GS0 * X_S0S1;
+    const Transform X_GB = X_GS1 * ~X_B_S1;
+    fx.poseB(s, X_GB);
+    const Transform X_Gpartner = swapRoles ? X_GS1 : X_GS0;
+    Vec3 n = X_Gpartner.R() * n_p; if (swapRoles) n = -n;          // from the first body's surface towards B's surface
+    const Vec3 pc = X_Gpartner * pc_p;
+    Vec3 t = Vec3(0.3, 0.5, -0.8); t = t - dot(t, n) * n; t = t / t.norm();
+    fx.sys.realize(s, Stage::Position);
+    {   // harness sanity: B is where the construction says it is
+        const Real e = (fx.B.getBodyTransform(s).p() - X_GB.p()).norm() + (fx.B.getBodyTransform(s).R() * ~X_GB.R()).convertRotationToAngleAxis()[0];
+        if (!(std::abs(e) < 1e-12)) { run.harnessError("contact fixture pose differs from the construction (" + verif::fmtd(e) + ") at " + desc); return; }
+    }
+    // ---- velocities (B relative to the first body at the contact point)
+    if (c.vel != 0) {
+        SpatialVec VA(Vec3(0), Vec3(0));
+        if (fx.haveA) { VA = SpatialVec(Vec3(0.4, 0.2, -0.3), Vec3(-0.2, 0.1, 0.3)); fx.A.setUToFitVelocity(s, VA); }
+        Vec3 wrel(0), vd(0);
+        switch (c.vel) { case 1: vd = -0.7 * n; break; case 2: vd = 0.7 * n; break; case 3: vd = 0.9 * t - 0.05 * n; break; case 4: wrel = Vec3(1.5, -2.0, 0.8); vd = 0.1 * t; break; default: wrel = Vec3(-0.7, 0.4, 1.1); vd = 0.3 * t + 0.25 * n; break; }
+        const Vec3 oA = fx.haveA ? X_GP.p() : Vec3(0);
+        const Vec3 vApc = VA[1] + VA[0] % (pc - oA);
+        const Vec3 wB = VA[0] + wrel;
+        const Vec3 vB = vApc + vd - wB % (pc - X_GB.p());
+        fx.velB(s, SpatialVec(wB, vB));
+        fx.sys.realize(s, Stage::Velocity);
+        const Real e = (fx.B.getBodyVelocity(s)[0] - wB).norm() + (fx.B.getBodyVelocity(s)[1] - vB).norm();
+        if (!(e < 1e-12)) { run.harnessError("contact fixture velocity differs from the construction (" + verif::fmtd(e) + ") at " + desc); return; }
+    }
+    fx.sys.realize(s, Stage::Dynamics);
+
+    if (run.verbose && K.mainShape == S_ELL) {
+        const Vec3 r = Vec3(1.2, 0.8, 1.9) * (Rb / 2); const Vec3 pl(r[0] * r[0] * dm[0] / hsup, r[1] * r[1] * dm[1] / hsup, r[2] * r[2] * dm[2] / hsup);
+        const Transform X_Gmain = swapRoles ? X_GS0 : X_GS1; const Vec3 Q = X_Gmain * pl;
+        const Vector_<SpatialVec>& FF = fx.sys.getRigidBodyForces(s, Stage::Dynamics); const int ib = (int)fx.B.getMobilizedBodyIndex();
+        const Vec3 MQ = FF[ib][0] + (fx.B.getBodyOriginLocation(s) - Q) % FF[ib][1];
+        printf("  ellipsoid: deepest point Q=(%g %g %g); force on B=(%g %g %g); moment of that force about Q=(%g %g %g) (|F|*depth=%g)\n", Q[0], Q[1], Q[2], FF[ib][1][0], FF[ib][1][1], FF[ib][1][2], MQ[0], MQ[1], MQ[2], FF[ib][1].norm() * depth);
+        if (fx.ccs->getNumContactForces(s)) { const Vec3 cp = fx.ccs->getContactForce(s, 0).getContactPoint(); printf("  reported contact point (%g %g %g), offset from Q: (%g %g %g); normal n=(%g %g %g)\n", cp[0], cp[1], cp[2], cp[0]-Q[0], cp[1]-Q[1], cp[2]-Q[2], n[0], n[1], n[2]); }
+    }
+    if (run.verbose && fx.gcs) {
+        const Array_<Contact>& cts = fx.gcs->getContacts(s, ContactSetIndex(0));
+        printf("  contacts=%d depth=%.6g hsup=%.6g\n", (int)cts.size(), depth, hsup);
+        for (int i = 0; i < (int)cts.size(); ++i) if (TriangleMeshContact::isInstance(cts[i])) { const TriangleMeshContact& tc = static_cast<const TriangleMeshContact&>(cts[i]); printf("   mesh contact: surf1 faces=%d surf2 faces=%d\n", (int)tc.getSurface1Faces().size(), (int)tc.getSurface2Faces().size()); }
+    }
+    Spec sp; sp.en = K.name; sp.suffix = c.vel == 0 ? "rest" : (c.vel >= 4 ? "relative-rotation" : "relative-translation"); sp.Fnom = Fnom; sp.H = 2e-5L; sp.tol = TOLC;
+    // ElasticFoundationForce: surfaces without parameters contribute neither dissipation nor friction; the coefficients of the
+    // parameterised mesh(es) decide.  All other models combine both materials, and both carry the set's coefficients.
+    sp.dissipative = M.damping || M.friction;
+    sp.gradient = !sp.dissipative || s.getU().norm() == 0;
+    if (fx.ccs) {
+        // documented (CompliantContactSubsystem.h "Energy and power", getDissipatedEnergy): PE + KE + dissipated energy is conserved except while a
+        // Hunt-Crossley force is clamped at zero ("yanking").  Clamping needs 1 + (3/2) c xdot < 0 (Hertz) / 1 + c xdot < 0: impossible for c <= 0.4
+        // with the speeds used here; with the strong-damping set it cannot happen at rest or in pure approach.
+        sp.accessor = [&](const State& st) { LD p = 0; for (int i = 0; i < fx.ccs->getNumContactForces(st); ++i) p += (LD)fx.ccs->getContactForce(st, i).getPowerDissipation(); return p; };
+        sp.accessorApplies = !M.clamping || c.vel <= 1;
+    }
+    sp.regime = M.cls;
+    judge(run, fx, s, sp, desc);
+    {   // the reported energy is a function of the state, not of the State object's history: change only the velocities of an already realized
+        // State (moving -> rest, and rest -> moving on a fresh State) and compare with the value reported for the same (q, u) reached the other way
+        const std::string gen = std::string(K.name).substr(0, std::string(K.name).find('('));
+        const LD peMoving = fx.pe(s); const Vector uMoving = s.getU();
+        State fresh = fx.sys.getDefaultState(); fresh.updQ() = s.getQ(); fx.sys.realize(fresh, Stage::Dynamics);
+        const LD peRestFresh = fx.pe(fresh);
+        s.updU() = 0; fx.sys.realize(s, Stage::Dynamics);
+        const LD peRestAfterMoving = fx.pe(s);
+        fresh.updU() = uMoving; fx.sys.realize(fresh, Stage::Dynamics);
+        const LD peMovingAfterRest = fx.pe(fresh);
+        run.expect(peRestAfterMoving == peRestFresh && peMovingAfterRest == peMoving, "reported-PE-stale-after-velocity-change/" + gen, [&] {
+            return "same State object, only u changed: PE at rest " + verif::fmtd((double)peRestAfterMoving) + " (fresh State: " + verif::fmtd((double)peRestFresh) + "), PE moving " + verif::fmtd((double)peMovingAfterRest) + " (first evaluation: " + verif::fmtd((double)peMoving) + ") at " + desc; });
+        if (peMoving != peRestFresh) run.count("reported-PE-depends-on-velocity(clamped-contact)/" + gen);
+        s.updU() = uMoving; fx.sys.realize(s, Stage::Dynamics);
+    }
+    if (c.depth == 0) { Vector_<SpatialVec> F; Vector f; fx.applied(s, F, f); bool any = false; for (int b = 0; b < F.size(); ++b) any = any || F[b][0].norm() != 0 || F[b][1].norm() != 0;
+        run.expect(!any && fx.pe(s) == 0, "separated-surfaces-force-or-energy/" + sp.en, [&] { return "force or potential energy reported although the surfaces are separated at " + desc; }); }
+    if (c.depth >= 2) { Vector_<SpatialVec> F; Vector f; State s0 = s; s0.updU() = 0; fx.sys.realize(s0, Stage::Dynamics); fx.applied(s0, F, f); bool any = false; for (int b = 0; b < F.size(); ++b) any = any || F[b][1].norm() != 0;
+        run.expect(any && fx.pe(s0) > 0, "vacuity:penetrating-fixture-applies-no-force/" + sp.en, [&] { return "harness: no force / no energy at rest although the construction penetrates at " + desc; }); }
+}
+
+// ---------------------------------------------------------------- section "exponential-spring" (normal direction)
+struct ECase { int par, cz, mu, plane, height, vel, vs; };
+static std::string str(const ECase& e) {
+    static const char* hn[] = {"far-above", "above", "on-plane", "below", "deep(max-force-clamp)"};
+    return std::string("ExponentialSpringForce par=") + std::to_string(e.par) + " cz#" + std::to_string(e.cz) + " mu#" + std::to_string(e.mu) + " plane=" + std::to_string(e.plane) + " height=" + hn[e.height] + " vel=" + velName(e.vel) + " vs=" + std::to_string(e.vs);
+}
+static void expSpringCase(verif::Run& run, const ECase& e, const std::string& desc) {
+    Fx fx; fx.addBodies(0);
+    ExponentialSpringParameters par;
+    Real d0 = 0.0065905, d1 = 0.5336, d2 = 1150.0, maxFz = 100000.0;      // documented defaults
+    if (e.par == 1) { d0 = -0.002; d1 = 1.2; d2 = 600; maxFz = 250; par.setShapeParameters(d0, d1, d2); par.setMaxNormalForce(maxFz); par.setFrictionElasticity(3000); par.setFrictionViscosity(40); par.setSettleVelocity(0.03); }
+    static const Real czTable[3] = {0, 0.5, 3.0};
+    const Real cz = czTable[e.cz]; par.setNormalViscosity(cz);
+    const Real mus = e.mu ? 0.7 : 0, muk = e.mu ? 0.5 : 0;
+    par.setInitialMuStatic(mus); par.setInitialMuKinetic(muk);
+    const Transform X_GP = e.plane == 0 ? Transform() : e.plane == 1 ? Transform(Rotation(-Pi / 2, XAxis), Vec3(0.2, -0.1, 0.3)) : Transform(Rotation(BodyRotationSequence, 0.4 + 0.2 * e.vs, XAxis, -0.7, YAxis, 0.3, ZAxis), Vec3(-0.3, 0.5, 0.1));
+    const Vec3 station(0.15, -0.1, 0.25);
+    ExponentialSpringForce spr(fx.forces, X_GP, fx.B, station, par);
+    fx.element = spr; fx.haveElement = true;
+    fx.sys.realizeTopology();
+    State s = fx.sys.getDefaultState();
+    const Real pzTable[5] = {0.03, 0.008, 0, -0.002, e.par == 0 ? -0.02 : -0.012};
+    const Real pz = pzTable[e.height];
+    const Vec3 pP = Vec3(0.3 + 0.1 * e.vs, -0.2, pz), pG = X_GP * pP;
+    const Rotation R_GB(BodyRotationSequence, -0.5, XAxis, 0.25 + 0.1 * e.vs, YAxis, 0.6, ZAxis);
+    const Vec3 oB = pG - R_GB * station;
+    fx.B.setQToFitTransform(s, Transform(R_GB, oB));
+    Vec3 wB(0), vP(0);       // station velocity in the plane frame (z = normal)
+    switch (e.vel) { case 1: vP = Vec3(0, 0, -0.6); break; case 2: vP = Vec3(0, 0, 0.5); break; case 3: vP = Vec3(0.48, -0.64, -0.05); break; case 4: wB = Vec3(1.5, -2.0, 0.8); vP = Vec3(0.06, -0.08, 0.1); break; default: break; }
+    const Vec3 vG = X_GP.R() * vP;
+    fx.sys.realize(s, Stage::Position);
+    fx.B.setUToFitVelocity(s, SpatialVec(wB, vG - wB % (pG - oB)));
+    spr.resetAnchorPoint(s);
+    fx.sys.realize(s, Stage::Dynamics);
+    {
+        const Vec3 pc = fx.B.findStationLocationInGround(s, station), vc = fx.B.findStationVelocityInGround(s, station);
+        if (!((pc - pG).norm() < 1e-13 && (vc - vG).norm() < 1e-12)) { run.harnessError("exponential spring fixture kinematics differ at " + desc); return; }
+    }
+    // documented law (ExponentialSpringForce.h): fzElas = d1 exp(-d2 (pz - d0)), fz = fzElas (1 - cz vz) clamped to [0, maxFz]
+    const Real fzElas = d1 * std::exp(-d2 * (pz - d0)), fzRaw = fzElas * (1 - cz * vP[2]);
+    if (fzRaw > maxFz || fzElas > maxFz) {
+        // documented: "conservation of energy may fail if the material actually yields" (upper limit of the normal force)
+        run.count("unspecified:normal-force-at-documented-maximum(energy-conservation-not-promised)"); run.evaluation(verif::hashStr(desc), false); return;
+    }
+    Spec sp; sp.en = "ExponentialSpringForce(normal)"; sp.suffix = cz == 0 ? "conservative" : (fzRaw < 0 ? "normal-viscosity(clamped-at-zero)" : "normal-viscosity");
+    sp.Fnom = d1 * std::exp(d2 * d0); sp.H = (LD)0.01 / (LD)d2; sp.tol = TOLC;
+    sp.dissipative = cz != 0;      // friction: mu = 0, or no tangential motion of the station (the enumeration guarantees it)
+    sp.gradient = !sp.dissipative || s.getU().norm() == 0;
+    if (fzRaw < 0) run.count("expspring:normal-force-clamped-at-zero");
+    judge(run, fx, s, sp, desc);
+}
+
+// ---------------------------------------------------------------- section "cable"
+struct KCase { int pathKind, carrier, c, slack, vel, vs; };
+static const char* pathKindName(int k) { static const char* n[] = {"via-point", "surface-obstacle", "disabled-surface-obstacle", "via-point+surface-obstacle", "no-obstacle"}; return n[k]; }
+static std::string str(const KCase& k) {
+    static const char* cn[] = {"all-on-Ground-but-termination", "origin-on-moving-body", "obstacles-on-moving-body"}; static const char* sn[] = {"slack", "exactly-taut", "stretched", "very-stretched"};
+    static const char* vn[] = {"rest", "lengthening", "shortening", "generic", "spinning"};
+    return std::string("CableSpring(") + pathKindName(k.pathKind) + ") " + cn[k.carrier] + " c#" + std::to_string(k.c) + " " + sn[k.slack] + " vel=" + vn[k.vel] + " vs=" + std::to_string(k.vs);
+}
+static void cableCase(verif::Run& run, const KCase& k, const std::string& desc) {
+    Fx fx; fx.addBodies(k.carrier == 0 ? 0 : 1);
+    fx.cables.reset(new CableTrackerSubsystem(fx.sys));
+    const Real sc = 1 + 0.15 * k.vs, r = 0.5 * sc;
+    const Vec3 Ow(-2.0, 0.2 * sc, 0.1), Cw(0.05 * k.vs, 0, 0.02), Tw(2.0 + 0.2 * k.vs, 0.1, 0.3), V1w(0.3, 1.0 * sc, 0.2), V2w(1.2, -0.3 * sc, 0.25);
+    const Transform X_GA(rot3(kVS[k.vs].ang + 3), Vec3(-0.4, -0.8, 0.3));
+    const Rotation R_GB(BodyRotationSequence, -0.5, XAxis, 0.25, YAxis, 0.6, ZAxis);
+    const Vec3 stB(-0.1, 0.2, 0.15), oB = Tw - R_GB * stB;
+    const bool originOnA = k.carrier == 1, obstacleOnA = k.carrier == 2;
+    MobilizedBody originBody = originOnA ? (MobilizedBody)fx.A : (MobilizedBody)fx.matter.updGround();
+    MobilizedBody obsBody = obstacleOnA ? (MobilizedBody)fx.A : (MobilizedBody)fx.matter.updGround();
+    auto inBody = [&](bool onA, const Vec3& pw) { return onA ? ~X_GA * pw : pw; };
+    fx.path.reset(new CablePath(*fx.cables, originBody, inBody(originOnA, Ow), fx.B, stB));
+    const bool hasSurface = k.pathKind == 1 || k.pathKind == 2 || k.pathKind == 3;
+    if (k.pathKind == 0) CableObstacle::ViaPoint(*fx.path, obsBody, inBody(obstacleOnA, V1w));
+    if (hasSurface) {
+        const Transform X_BS(obstacleOnA ? ~X_GA.R() : Rotation(), inBody(obstacleOnA, Cw));    // surface frame aligned with Ground at the base pose
+        CableObstacle::Surface so(*fx.path, obsBody, X_BS, ContactGeometry::Sphere(r));
+        so.setContactPointHints(Vec3(-0.2 * r, r, 0), Vec3(0.2 * r, r, 0));
+        if (k.pathKind == 2) so.setDisabledByDefault(true);
+    }
+    if (k.pathKind == 3) CableObstacle::ViaPoint(*fx.path, obsBody, inBody(obstacleOnA, V2w));
+    static const Real cTable[3] = {0, 0.3, 3.0};
+    const Real kSpring = 120, cc = cTable[k.c];
+    CableSpring spring(fx.forces, *fx.path, kSpring, 1.0, cc);
+    fx.element = spring; fx.haveElement = true;
+    CoutSilencer silence;
+    fx.sys.realizeTopology();
+    State s = fx.sys.getDefaultState();
+    if (fx.haveA) fx.A.setQToFitTransform(s, X_GA);
+    fx.B.setQToFitTransform(s, Transform(R_GB, oB));
+    fx.sys.realize(s, Stage::Position);
+    const CablePath::Impl& pimpl = fx.path->getImpl();
+    const bool activeSurface = k.pathKind == 1 || k.pathKind == 3;
+    auto converged = [&](const State& st) { const PathPosEntry& ppe = pimpl.getPosEntry(st); return std::isfinite(fx.path->getCableLength(st)) && (ppe.err.size() ? ppe.err.norm() : 0.0) <= 1e-9; };
+    const Real L = fx.path->getCableLength(s);
+    if (!run.expect(converged(s), std::string("vacuity:cable-path-not-converged-at-the-base-state/") + pathKindName(k.pathKind), [&] { return "harness: the fixture's cable path does not converge (a surface obstacle that would have to lift off?) at " + desc; })) { run.evaluation(verif::hashStr(desc), false); return; }
+    {   // vacuity / construction: the active sphere must lengthen the path beyond the straight polyline, the disabled one must not
+        Real poly = 0; Vec3 prev = Ow; if (k.pathKind == 0) { poly += (V1w - prev).norm(); prev = V1w; } if (k.pathKind == 3) { poly += (V2w - prev).norm(); prev = V2w; } poly += (Tw - prev).norm();
+        if (activeSurface) run.expect(L > poly + 1e-3, "vacuity:cable-does-not-wrap-the-active-obstacle", [&] { return "harness: path length " + verif::fmtd(L) + " vs polyline " + verif::fmtd(poly) + " at " + desc; });
+        else run.residual("cable-length-without-active-surface-is-the-polyline", std::abs(L - poly) / poly, 1e-13, [&] { return desc; });
+    }
+    static const Real slackFactor[4] = {1.4, 1.0, 0.9, 0.5};
+    const Real L0 = L * slackFactor[k.slack];
+    spring.setSlackLength(s, L0);
+    fx.sys.realize(s, Stage::Position);
+    // velocities: B moves along / against the last cable direction (approximately +x), A generic
+    if (k.vel != 0) {
+        if (fx.haveA) fx.A.setUToFitVelocity(s, SpatialVec(Vec3(0.4, 0.2, -0.3), Vec3(-0.2, 0.1, 0.3)));
+        SpatialVec VB(Vec3(0), Vec3(0));
+        switch (k.vel) { case 1: VB[1] = Vec3(0.7, -0.1, 0.05); break; case 2: VB[1] = Vec3(-0.7, 0.1, -0.05); break; case 3: VB = SpatialVec(Vec3(-0.7, 0.4, 1.1), Vec3(0.2, 0.5, -0.3)); break; default: VB[0] = Vec3(1.5, -2.0, 0.8); break; }
+        fx.B.setUToFitVelocity(s, VB);
+    }
+    fx.sys.realize(s, Stage::Dynamics);
+    const Real Ldot = fx.path->getCableLengthDot(s);
+    const bool clamped = L > L0 && cc * Ldot < -1;
+    Spec sp; sp.en = std::string("CableSpring(") + pathKindName(k.pathKind) + ")";
+    sp.suffix = cc == 0 ? "conservative" : (clamped ? "dissipation(tension-clamped-at-zero)" : "dissipation");
+    sp.Fnom = kSpring * 0.1 * L; sp.H = 2e-3L; sp.tol = activeSurface ? TOL_SURFACE : TOLC; sp.fdAgree = sp.tol / 300;
+    sp.dissipative = cc != 0;
+    sp.gradient = !sp.dissipative || s.getU().norm() == 0;
+    sp.valid = converged;
+    // documented (CableSpring.h): powerLoss = f_rate * xdot accounts exactly for the lost energy, also while the tension is clamped at zero
+    sp.accessor = [&](const State& st) { return (LD)spring.getPowerDissipation(st); }; sp.accessorApplies = true;
+    run.count(std::string("cable:") + (L > L0 ? (clamped ? "stretched-clamped" : "stretched") : (L == L0 ? "exactly-taut" : "slack")));
+    judge(run, fx, s, sp, desc);
+}
+
+}  // namespace cx
+
 int main(int argc, char** argv) {
     verif::Run run("C12", argc, argv);
     run.setDeadline(300, 2400);
     const bool th = run.thorough();
-    run.rule = "E3: case = (host tree of 3 bodies (3 trees; thorough 5), force element, parameter set, attachment, state kind, value set); every tuple of the force alphabet is built and evaluated. distinct = distinct tuple; non-trivial = some power term, energy derivative or generalized-force component is non-zero";
-    run.assumptions = {"continuous values only from the fixed tables of engine/models.h and engine/forcemodels.h", "body velocities and qdot = N u are the library's velocity kinematics (checked by C03/C04)", "finite differences: 4th-order central, h = 2e-3 and 1e-3 must agree to 1e-7 (normalised) or the case is skipped and counted", "contact elements and CableSpring are covered by C37 / C45, not here", "quaternion hosts: the straight-line path q + t*qdot leaves the unit sphere at second order; the library normalises quaternions, first derivatives are unaffected"};
+    run.rule = "E3: section alphabet: case = (host tree of 3 bodies (3 trees; thorough 5), force element, parameter set, attachment, state kind, value set); every tuple of the force alphabet is built and evaluated. "
+               "section contact: case = (element x geometry pair (14: HuntCrossleyForce sphere/half-space, sphere/sphere; ElasticFoundationForce mesh/half-space, mesh/sphere, mesh/mesh with both / only the sphere mesh / only the brick mesh parameterised; "
+               "CompliantContactSubsystem Hertz circular sphere/half-space, sphere/sphere, Hertz elliptical ellipsoid/half-space, elastic foundation mesh/half-space, mesh/sphere, mesh/mesh, brick/half-space), "
+               "carrier (partner surface on Ground / both on free bodies; thorough + second body a child of the first), surface order (registration order reversed for the GeneralContactSubsystem elements; shapes swapped between the two bodies for the "
+               "CompliantContactSubsystem; thorough: both for the former), material set (5: conservative, damping, strong damping that clamps the force at zero when separating, friction, damping+friction), "
+               "penetration (separated, touching, shallow, deep), relative velocity (rest, approaching, separating, sliding, spinning; thorough + generic), value set). "
+               "section exponential-spring: (parameter set(2), normal viscosity(0, .5, 3), friction(off: any motion / on: motion along the plane normal only), plane(3), height(5 incl. the max-force clamp), velocity, value set). "
+               "section cable: (path: via point / surface obstacle / disabled surface obstacle (thorough + via point and surface, no obstacle), which attachment is on a moving body(3), dissipation(0, .3, 3), slack length(slack, exactly taut, stretched, very stretched), velocity(4; thorough 5), value set). "
+               "distinct = distinct tuple; non-trivial = some power term, energy derivative or generalized-force component is non-zero";
+    run.assumptions = {"continuous values only from the fixed tables of engine/models.h and engine/forcemodels.h", "body velocities and qdot = N u are the library's velocity kinematics (checked by C03/C04)", "finite differences: 4th-order central, h = 2e-3 and 1e-3 must agree to 1e-7 (normalised) or the case is skipped and counted", "contact / exponential-spring / cable sections: the element is alone in its system; reported PE = Force::calcPotentialEnergyContribution (== MultibodySystem::calcPotentialEnergy, checked) or MultibodySystem::calcPotentialEnergy for the CompliantContactSubsystem, always on a State realized to Stage::Dynamics as documented; the stencil keeps u fixed", "contact sections: step h = 2e-5 (contact), 0.01/d2 (exponential spring), 2e-3 (cable); Richardson pair must agree to 1e-10 (normalised) or the case is skipped and counted (kinks: touching surfaces, mesh faces entering contact, slack/taut, clamps); cable over a surface obstacle: bound 1e-4, agreement 3.3e-7 (its geodesics are integrated numerically) and every stencil point must have a converged path (error <= 1e-9)", "normalisation of the contact sections: sum |power terms| + |dPE/dt| + max |PE| on the stencil + (documented elastic force at the nominal shallow penetration) x (largest body speed)", "clamped regimes (force clamped at zero while separating fast, CableSpring tension clamped at zero) are dissipative: one-sided clause; CompliantContactSubsystem dissipated-power report = -(P + dPE/dt) demanded only where no clamping is possible (documented exception), CableSpring always (documented)", "ExponentialSpringForce: only the normal direction (friction off, or no tangential motion of the station); states with the normal force at its documented maximum are counted, not judged (the header: conservation of energy may fail there)", "the law of each contact force is C37's, third law C13's, cable geometry C45's; here only power vs reported energy", "quaternion hosts: the straight-line path q + t*qdot leaves the unit sphere at second order; the library normalises quaternions, first derivatives are unaffected"};
     for (int h = 0; h < fm::NHOST_ALL; ++h) { std::string why; if (!fm::checkHostTables(h, &why)) { run.harnessError(why); return run.finish(); } }
     std::vector<int> valueSets = th ? std::vector<int>{0, 1, 2} : std::vector<int>{(int)(((run.seed % 3) + 3) % 3)};
     std::vector<Unit> units;
@@ -182,5 +695,45 @@ int main(int argc, char** argv) {
         catch (const std::exception& e) { run.violation(std::string("exception/") + fm::elemName(u.elem), std::string("exception: ") + e.what() + " at " + desc, run.replayHeader()); }
         if (idx % 1543 == 0) run.sample(desc);
     });
+    // ---- contact elements, exponential spring (normal direction), cable spring
+    const std::vector<int> vsets = th ? std::vector<int>{0, 1, 2} : std::vector<int>{(int)(((run.seed % 3) + 3) % 3)};
+    {
+        std::vector<cx::CCase> cc;
+        for (int vs : vsets) for (int k = 0; k < cx::NKIND; ++k) for (int ca = 0; ca < (th ? 3 : 2); ++ca) {
+            const int nOrder = (th && cx::kKinds[k].family != cx::F_CCS) ? 4 : 2;
+            for (int o = 0; o < nOrder; ++o) for (int m = 0; m < 5; ++m) for (int d = 0; d < 4; ++d) for (int v = 0; v < (th ? 6 : 5); ++v) cc.push_back({k, ca, o, m, d, v, vs});
+        }
+        run.parallel("contact", (int64_t)cc.size(), [&](int64_t idx) {
+            const cx::CCase& c = cc[idx];
+            const std::string desc = "contact item=" + std::to_string(idx) + " " + cx::str(c);
+            try { cx::contactCase(run, c, desc); }
+            catch (const std::exception& e) { run.violation(std::string("exception/") + cx::kKinds[c.kind].name, std::string("exception: ") + e.what() + " at " + desc, run.replayHeader() + desc); }
+            if (idx % 733 == 0) run.sample(desc);
+        });
+    }
+    {
+        std::vector<cx::ECase> ec;
+        for (int vs : vsets) for (int par = 0; par < 2; ++par) for (int cz = 0; cz < 3; ++cz) for (int mu = 0; mu < 2; ++mu) for (int pl = 0; pl < 3; ++pl) for (int hgt = 0; hgt < 5; ++hgt)
+            for (int v = 0; v < (mu ? 3 : 5); ++v) ec.push_back({par, cz, mu, pl, hgt, v, vs});       // with friction: motion of the station along the plane normal only
+        run.parallel("exponential-spring", (int64_t)ec.size(), [&](int64_t idx) {
+            const cx::ECase& e = ec[idx];
+            const std::string desc = "exponential-spring item=" + std::to_string(idx) + " " + cx::str(e);
+            try { cx::expSpringCase(run, e, desc); }
+            catch (const std::exception& ex) { run.violation("exception/ExponentialSpringForce(normal)", std::string("exception: ") + ex.what() + " at " + desc, run.replayHeader() + desc); }
+            if (idx % 211 == 0) run.sample(desc);
+        });
+    }
+    {
+        std::vector<cx::KCase> kc;
+        const std::vector<int> pathKinds = th ? std::vector<int>{0, 1, 2, 3, 4} : std::vector<int>{0, 1, 2};
+        for (int vs : vsets) for (int pk : pathKinds) for (int ca = 0; ca < 3; ++ca) for (int c = 0; c < 3; ++c) for (int sl = 0; sl < 4; ++sl) for (int v = 0; v < (th ? 5 : 4); ++v) kc.push_back({pk, ca, c, sl, v, vs});
+        run.parallel("cable", (int64_t)kc.size(), [&](int64_t idx) {
+            const cx::KCase& k = kc[idx];
+            const std::string desc = "cable item=" + std::to_string(idx) + " " + cx::str(k);
+            try { cx::cableCase(run, k, desc); }
+            catch (const std::exception& ex) { run.violation(std::string("exception/CableSpring(") + cx::pathKindName(k.pathKind) + ")", std::string("exception: ") + ex.what() + " at " + desc, run.replayHeader() + desc); }
+            if (idx % 97 == 0) run.sample(desc);
+        });
+    }
     return run.finish();
 }
